@@ -131,7 +131,7 @@ func watchdog() {
 		spec, k := current.spec, current.k
 		sp := current.startProgress
 		current.Unlock()
-		if busy && cur-sp > int64(envInt("VERIF_MAX_EVENTS", 1500000)) {
+		if busy && cur-sp > int64(envInt("VERIF_MAX_EVENTS", 250000)) {
 			// runaway: events are produced without bound (e.g. unbounded recursion / spin at zero latency)
 			d := fullDump()
 			lib, rep := h.CensusOf(d)
